@@ -167,6 +167,8 @@ pub enum Stmt {
     Tron,
     Troff,
     Input(Option<String>, Vec<LVal>),
+    /// INPUT ,["prompt";]vars : capitalisation off
+    InputNoCaps(Option<String>, Vec<LVal>),
     Rem(String),
     Empty,
     Data(Vec<Expr>),
@@ -277,6 +279,13 @@ impl Stmt {
                 match p {
                     Some(p) => format!("INPUT \"{}\";{}", p, vs),
                     None => format!("INPUT {}", vs),
+                }
+            }
+            Stmt::InputNoCaps(p, vars) => {
+                let vs = vars.iter().map(|v| v.render()).collect::<Vec<_>>().join(",");
+                match p {
+                    Some(p) => format!("INPUT ,\"{}\";{}", p, vs),
+                    None => format!("INPUT ,{}", vs),
                 }
             }
             Stmt::Rem(t) => {
